@@ -58,15 +58,19 @@ def run(ctx, res):
     f = P.require_fn(VISIT)
     sym = 2      # (&mut self, symbol)
     gets = [(bi, t) for bi, t in f.calls() if (M.callee_name(t) or "").endswith("HashMap::<K, V, S, A>::get")]
+    # the visitor's fields are found by type, not by name: the Vec<Position> it pushes to, the map from SyntaxId to Position it
+    # reads, and the Position it compares with
+    def aty(t, i):
+        return str((t.get("argtys") or [""] * (i + 1))[i]).replace(" ", "")
     pushes = [(bi, t) for bi, t in f.calls() if (M.callee_name(t) or "").endswith("Vec::<T, A>::push")
-              and fields(f, t["args"][0])[1][-1:] == ["replace_positions"]]
+              and fields(f, t["args"][0])[0] == 1 and "Vec<parser::position::Position>" in aty(t, 0)]
     res.floor("SELECT-BY-DEFINITION", "pushes to replace_positions in visit_symbol", len(pushes), 1)
     key_ok = False
     get_dest = None
     for bi, t in gets:
         l0, f0 = fields(f, t["args"][0])
         l1, f1 = fields(f, t["args"][1])
-        if f0[-1:] == ["id_to_pos"] and l1 == sym and f1[-1:] == ["id"]:
+        if l0 == 1 and f0 and "Position" in aty(t, 0) and "SyntaxId" in aty(t, 0) and l1 == sym and f1[-1:] == ["id"]:
             key_ok = True
             get_dest = t["dest"]["l"]
     if not key_ok:
@@ -86,8 +90,8 @@ def run(ctx, res):
             rr = f.root_of(a, through_named=True)
             if rr[0] == "place":
                 fp = f.field_path(rr[1])
-                if fp[-1:] == ["definition_pos"]:
-                    sides.append("target")
+                if rr[1]["l"] == 1 and fp and "Some" not in json.dumps(rr[1]["p"]) and f.single_def(rr[1]["l"]) is None:
+                    sides.append("target")      # a field of the visitor itself
                 elif rr[1]["l"] == get_dest or (f.single_def(rr[1]["l"]) is None and "Some" in json.dumps(rr[1]["p"])):
                     sides.append("looked-up")
                 else:
@@ -200,6 +204,14 @@ def run(ctx, res):
     rev = any(n.endswith("Iterator::rev") or "Rev<" in n or n.endswith("::next_back") or n.endswith("::rfind") for n in names)
     hget = [(bi, t) for bi, t in lg.calls() if (M.callee_name(t) or "").endswith("HashMap::<K, V, S, A>::get")]
     key_is_name = bool(hget) and all(fields(lg, t["args"][1])[0] == 2 for _, t in hget)
+    if not hget:
+        # `blocks.iter().rev().find_map(|block| block.get(name))`: the lookup sits in the closure, its key is the captured name
+        for cp, c in sorted(P.funcs.items()):
+            if cp.startswith(lg.path + "::{closure"):
+                cg = [(bi, t) for bi, t in c.calls() if (M.callee_name(t) or "").endswith("HashMap::<K, V, S, A>::get")]
+                if len(cg) == 1:
+                    l_, fp_ = fields(c, cg[0][1]["args"][1])
+                    key_is_name = l_ == 1 and "SymbolName" in str((cg[0][1].get("argtys") or ["", ""])[1])
     if rev and key_is_name:
         res.ok("LOOKUP-INNERMOST", "LocalBindings::get searches the blocks from the innermost outwards for the given name")
     else:
